@@ -31,10 +31,16 @@ impl MarkArrayExt for MarkArray<'_> {
         let (mark_x, mark_y) = mark_anchor.get(ctx.face);
         let (base_x, base_y) = base_anchor.get(ctx.face);
 
+        // `attach_chain` is an i16: a glyph more than i16::MAX positions away cannot be linked
+        // (the cast below would wrap and point at an unrelated glyph), so leave the mark unattached.
+        let idx = ctx.buffer.idx;
+        if (glyph_pos as isize - idx as isize).unsigned_abs() > i16::MAX as usize {
+            return None;
+        }
+
         ctx.buffer
             .unsafe_to_break(Some(glyph_pos), Some(ctx.buffer.idx + 1));
 
-        let idx = ctx.buffer.idx;
         let pos = ctx.buffer.cur_pos_mut();
         pos.x_offset = base_x - mark_x;
         pos.y_offset = base_y - mark_y;
